@@ -737,4 +737,63 @@ theorem roundEven_cases (X : ℚ) (f : Int) (hf : f = ⌊X⌋) (A B : Prop) [Dec
       · simp [h3]
 
 
+/-! ## division and remainder -/
+
+theorem trunc_neg (x : ℚ) : Spec.trunc (-x) = -Spec.trunc x := by
+  unfold Spec.trunc
+  simp only [rat_floor_eq, rat_ceil_eq]
+  rcases lt_trichotomy x 0 with h | h | h
+  · rw [if_pos (by linarith), if_neg (by linarith), Int.floor_neg]
+  · subst h; simp
+  · rw [if_neg (by linarith), if_pos (by linarith), Int.ceil_neg]
+
+/-- truncating division by any non-zero divisor is truncation of the rational quotient -/
+theorem tdiv_trunc' (m D : Int) (hD : D ≠ 0) : Int.tdiv m D = Spec.trunc ((m : ℚ) / (D : ℚ)) := by
+  rcases Int.lt_trichotomy D 0 with h | h | h
+  · have e : (m : ℚ) / (D : ℚ) = -((m : ℚ) / ((-D : Int) : ℚ)) := by push_cast; rw [div_neg, neg_neg]
+    rw [e, trunc_neg, ← tdiv_trunc m (-D) (by omega), Int.tdiv_neg, Int.neg_neg]
+  · exact absurd h hD
+  · exact tdiv_trunc m D h
+
+theorem tmod_le_self (l r : Int) (h0 : 0 ≤ l) : Int.tmod l r ≤ l := by
+  have h := Int.tmod_add_mul_tdiv l r
+  have : 0 ≤ r * Int.tdiv l r := by
+    rcases Int.le_total 0 r with hr | hr
+    · exact Int.mul_nonneg hr (Int.tdiv_nonneg h0 hr)
+    · have e : Int.tdiv l r = -(Int.tdiv l (-r)) := by rw [Int.tdiv_neg, Int.neg_neg]
+      have h1 : 0 ≤ Int.tdiv l (-r) := Int.tdiv_nonneg h0 (by omega)
+      have h2 : 0 ≤ (-r) * Int.tdiv l (-r) := Int.mul_nonneg (by omega) h1
+      rw [e, Int.mul_neg, ← Int.neg_mul]; exact h2
+  omega
+
+theorem cdiv_ok (t : ITy) (a b : Int) (hb : b ≠ 0) (hex : ¬ (a = t.min ∧ b = -1)) : cdiv t a b = .ok (Int.tdiv a b) := by
+  unfold cdiv
+  have h1 : (b == 0) = false := by simpa using hb
+  rw [h1]
+  simp only [Bool.false_eq_true, if_false]
+  by_cases h2 : a = t.min ∧ b = -1
+  · exact absurd h2 hex
+  · have : (t.sg && a == t.min && b == -1) = false := by
+      rcases not_and_or.mp h2 with h | h
+      · have : (a == t.min) = false := by simpa using h
+        simp [this]
+      · have : (b == -1) = false := by simpa using h
+        simp [this]
+    rw [this]; simp
+
+theorem cmod_ok (t : ITy) (a b : Int) (hb : b ≠ 0) (hex : ¬ (a = t.min ∧ b = -1)) : cmod t a b = .ok (Int.tmod a b) := by
+  unfold cmod
+  have h1 : (b == 0) = false := by simpa using hb
+  rw [h1]
+  simp only [Bool.false_eq_true, if_false]
+  by_cases h2 : a = t.min ∧ b = -1
+  · exact absurd h2 hex
+  · have : (t.sg && a == t.min && b == -1) = false := by
+      rcases not_and_or.mp h2 with h | h
+      · have : (a == t.min) = false := by simpa using h
+        simp [this]
+      · have : (b == -1) = false := by simpa using h
+        simp [this]
+    rw [this]; simp
+
 end Tetl.C12
